@@ -557,6 +557,9 @@ func (f *g2lFn) writeThrough(o types.Object, ind int) []string {
 	if c == nil {
 		return nil
 	}
+	if out, ok := f.retWriteThrough(o, ind); ok { // go2lean_ownret.go: a pointer returned into an in-out parameter
+		return out
+	}
 	name := f.names[o]
 	if c.at == "" {
 		return f.assignTo(c.container, fmt.Sprintf("%s.set %s %s", g2lPar(f.expr(c.container)), g2lPar(c.idx), name), false, ind)
@@ -819,6 +822,9 @@ func (f *g2lFn) afterIdentAssign(o types.Object, ind int) []string {
 
 // assignOwn: an assignment statement, with the bookkeeping of found cursors around it.
 func (f *g2lFn) assignOwn(x *ast.AssignStmt, ind int) []string {
+	if out, ok := f.retCursorDefine(x, ind); ok { // go2lean_ownret.go: `x := f(…)` with f returning a cursor into an in-out argument
+		return out
+	}
 	var pre, post []string
 	if f.own != nil && len(x.Lhs) == 1 && len(x.Rhs) == 1 {
 		pre = f.foundAppend(x, ind)
@@ -1320,6 +1326,16 @@ const g2lOwnHeader = `  Object trees written in place (go2lean_own.go; trusted):
     Unit × its in-out parameters.
 `
 
+// go2lean_ownret.go: appended to the header only when a returned cursor is in use
+const g2lOwnRetHeader = `  * a function with in-out parameters whose every return returns one found
+    cursor p has a twin <fn>_at (returnedCursors) that returns the index path of
+    the element p aliases below the in-out parameter (same body, other return);
+    x := f(args) in a caller (returnedCursorUses) binds x to the returned
+    pointee and x_at to f_at of the SAME arguments; every write through x is
+    followed at once by the write-back along that path into the caller's in-out
+    parameter, which the caller does not mention while x is live (checked).
+`
+
 func (g *g2l) emitOwnFacts(w func(string, ...any), okUnits map[string]bool) {
 	of := g.ownFacts()
 	pairs := func(name, doc string, xs [][2]string) {
@@ -1352,6 +1368,7 @@ func (g *g2l) emitOwnFacts(w func(string, ...any), okUnits map[string]bool) {
 	}
 	w("]\n\n")
 	pairs("lateAddr", "&x of a local that is assigned only before the expression (function, expression)", of.lateAddr)
+	g.emitRetFacts(w, okUnits) // go2lean_ownret.go
 	delete(g2lOwnRuns, g)
 }
 
